@@ -2,35 +2,43 @@
 # Must-fail / must-pass corpus. For every selftest/mutants/<Cxx>_*.patch: apply it to a scratch worktree of /repo,
 # run the check of property Cxx against that tree, and require exit 1 with a VIOLATION line. For every
 # selftest/harmless/<Cxx>_*.patch: require exit 0. Evidence and replay files of these runs go to a scratch directory.
-# usage: tools/selftest.sh [pattern]
+# usage: tools/selftest.sh [pattern]      (SELFTEST_JOBS=n patches are handled concurrently, default 3)
 set -u
 export GOFLAGS=-mod=mod GOPROXY=off
-WT=/tmp/govc-selftest.$$
-OUT=/tmp/govc-selftest-out.$$
 pat="${1:-}"
-trap 'git -C /repo worktree remove --force $WT >/dev/null 2>&1; rm -rf $WT $OUT' EXIT
-git -C /repo worktree add --detach $WT HEAD >/dev/null 2>&1 || { echo "cannot create worktree"; exit 2; }
-mkdir -p $OUT
-fail=0
-run() { # kind patch
+jobs="${SELFTEST_JOBS:-3}"
+one() { # kind patch
   kind=$1; p=$2
   base=$(basename $p .patch)
   prop=${base%%_*}
-  git -C $WT checkout -q -- . && git -C $WT clean -fdq
-  if ! git -C $WT apply $p 2>/dev/null; then echo "SKIP $base (patch does not apply)"; return; fi
-  (cd $WT && go build ./... >/dev/null 2>&1) || { echo "SKIP $base (does not compile)"; return; }
-  GOVC_REPO=$WT GOVC_OUT=$OUT /verif/bin/govc check -p $prop > $OUT/$base.out 2> $OUT/$base.err
-  rc=$?
-  if [ $kind = mutant ]; then
-    if [ $rc -eq 1 ] && grep -q "^VIOLATION property=$prop" $OUT/$base.out; then
-      echo "ok   $base: detected ($(grep -c '^VIOLATION' $OUT/$base.out) violation lines; first: $(grep -m1 '^  ' $OUT/$base.err | cut -c1-150))"
-    else
-      echo "MISS $base: exit $rc"; fail=1
-    fi
+  WT=/tmp/govc-selftest.$$.$base
+  OUT=/tmp/govc-selftest-out.$$.$base
+  git -C /repo worktree add --detach $WT HEAD >/dev/null 2>&1 || { echo "ERR  $base: cannot create worktree"; return; }
+  mkdir -p $OUT
+  if ! git -C $WT apply $p 2>/dev/null; then echo "SKIP $base (patch does not apply)"
+  elif ! (cd $WT && go build ./... >/dev/null 2>&1); then echo "SKIP $base (does not compile)"
   else
-    if [ $rc -eq 0 ]; then echo "ok   $base: no alarm"; else echo "FALSE-ALARM $base: exit $rc: $(grep -m2 '^  ' $OUT/$base.err | cut -c1-200)"; fail=1; fi
+    GOVC_REPO=$WT GOVC_OUT=$OUT /verif/bin/govc check -p $prop > $OUT/out 2> $OUT/err
+    rc=$?
+    if [ $kind = mutant ]; then
+      if [ $rc -eq 1 ] && grep -q "^VIOLATION property=$prop" $OUT/out; then
+        echo "ok   $base: detected ($(grep -c '^VIOLATION' $OUT/out) violation lines; first: $(grep -m1 '^  ' $OUT/err | cut -c1-150))"
+      else
+        echo "MISS $base: exit $rc"
+      fi
+    else
+      if [ $rc -eq 0 ]; then echo "ok   $base: no alarm"; else echo "FALSE-ALARM $base: exit $rc: $(grep -m2 '^  ' $OUT/err | cut -c1-200)"; fi
+    fi
   fi
+  git -C /repo worktree remove --force $WT >/dev/null 2>&1; rm -rf $WT $OUT
 }
-for p in /verif/selftest/mutants/*${pat}*.patch; do [ -f "$p" ] && run mutant $p; done
-for p in /verif/selftest/harmless/*${pat}*.patch; do [ -f "$p" ] && run harmless $p; done
-exit $fail
+export -f one
+res=/tmp/govc-selftest-res.$$
+{
+  for p in /verif/selftest/mutants/*${pat}*.patch; do [ -f "$p" ] && echo "mutant $p"; done
+  for p in /verif/selftest/harmless/*${pat}*.patch; do [ -f "$p" ] && echo "harmless $p"; done
+} | xargs -P $jobs -L 1 bash -c 'one $0 $1' > $res
+cat $res
+rc=0; grep -q "^MISS\|^FALSE-ALARM\|^ERR" $res && rc=1
+rm -f $res
+exit $rc
